@@ -126,7 +126,7 @@ func specIssuerOK(key *oprf.PrivateKey) bool {
 //@ func NewBatchedPrivateIssuer(key *oprf.PrivateKey) (i *BatchedPrivateIssuer)
 //@ props C01 C17
 //@ requires key != nil
-//@ ensures i != nil && fresh(i) && i.tokenKey == key
+//@ ensures[C01 C17] i != nil && fresh(i) && i.tokenKey == key
 //@ ensures[C17] PubCached(key)
 //@ assigns ghost(PubCached(key)) when !PubCached(key)
 //@ end
